@@ -265,10 +265,10 @@ class extract_visitor(NodeVisitor):
 
     def visit_ClassDef(self, node):
         # type: (ast.ClassDef) -> None
-        cur = self.flow
-        self.visit_in_flow(node.decorator_list, cur)
-        self.visit_in_flow(node.bases, cur)
-        self.visit_in_flow([kw.value for kw in getattr(node, 'keywords', [])], cur)
+        # a comprehension among the decorators or bases ends in a region of its own
+        cur = self.visit_in_flow(node.decorator_list, self.flow)
+        cur = self.visit_in_flow(node.bases, cur)
+        cur = self.visit_in_flow([kw.value for kw in getattr(node, 'keywords', [])], cur)
         scope = ClassScope(cur.scope, node, top=self.top)
         cur.add_name(scope)  # type: ignore[arg-type]  # TODO
         self.visit_in_flow(node.body, scope.flow)
@@ -286,8 +286,11 @@ class extract_visitor(NodeVisitor):
         # type: (ast.ListComp | ast.GeneratorExp | ast.DictComp | ast.SetComp) -> None
         p = cur = self.flow
         comp, self.comp = getattr(self, 'comp', None), node
-        for g in node.generators:
-            self.visit_in_flow(g.iter, p)
+        for i, g in enumerate(node.generators):
+            # an iterable may hold a comprehension itself and end in a region of its own
+            p = self.visit_in_flow(g.iter, p)
+            if i == 0:
+                cur = p
             pp = p
             p = self.make_flow('comp', [p])
             for nn, _idx in get_indexes_for_target(g.target, [], []):
@@ -300,13 +303,13 @@ class extract_visitor(NodeVisitor):
 
             if g.ifs:
                 for inode in g.ifs:
-                    self.visit_in_flow(inode, p)
+                    p = self.visit_in_flow(inode, p)
 
         elt = getattr(node, 'elt', None) or node.value  # type: ast.AST # type: ignore[union-attr]
-        self.visit_in_flow(elt, p)
+        p = self.visit_in_flow(elt, p)
 
         if hasattr(node, 'key'):
-            self.visit_in_flow(node.key, p)
+            p = self.visit_in_flow(node.key, p)
 
         self.comp = comp
         self.flow = self.make_flow('comp-join', [cur, p])
